@@ -27,31 +27,6 @@ func havocReachable() CVSS {
 	return c
 }
 
-// eff is the effective value of a metric as the specification defines it
-// (section 8.2, "m()"): the Modified metric when it is defined, else the base
-// metric; E:X scores as A, CR/IR/AR:X as H.
-func eff(c CVSS, abv string) string {
-	switch abv {
-	case "E":
-		v := get(c, "E")
-		if v == "X" {
-			return "A"
-		}
-		return v
-	case "CR", "IR", "AR":
-		v := get(c, abv)
-		if v == "X" {
-			return "H"
-		}
-		return v
-	}
-	m := get(c, "M"+abv)
-	if m != "X" {
-		return m
-	}
-	return get(c, abv)
-}
-
 // severity levels, most severe first (specification section 8.2)
 var levels = []metric{
 	{"AV", []string{"N", "A", "L", "P"}},
@@ -68,6 +43,7 @@ var levels = []metric{
 	{"SC", []string{"H", "L", "N"}},
 	{"SI", []string{"S", "H", "L", "N"}},
 	{"SA", []string{"S", "H", "L", "N"}},
+	{"E", []string{"A", "P", "U"}},
 }
 
 func level(abv, v string) int {
@@ -77,6 +53,32 @@ func level(abv, v string) int {
 		}
 	}
 	return 0
+}
+
+// eff is the severity level (0 = most severe value of the list above) of the
+// effective value of a metric as the specification defines it (section 8.2,
+// "m()"): the Modified metric when it is defined, else the base metric; E:X
+// scores as A, CR/IR/AR:X as H.
+func eff(c CVSS, abv string) int {
+	switch abv {
+	case "E":
+		v := get(c, "E")
+		if v == "X" {
+			return level("E", "A")
+		}
+		return level("E", v)
+	case "CR", "IR", "AR":
+		v := get(c, abv)
+		if v == "X" {
+			return level(abv, "H")
+		}
+		return level(abv, v)
+	}
+	m := get(c, "M"+abv)
+	if m != "X" {
+		return level(abv, m)
+	}
+	return level(abv, get(c, abv))
 }
 
 // highest-severity vectors per equivalence set and level (specification
@@ -109,36 +111,82 @@ var eq4Max = [][][]string{
 	{{"L", "L", "L"}},
 }
 
-// refMacroVector classifies the effective values (specification tables 24-29).
-func refMacroVector(c CVSS) (int, int, int, int, int, int) {
-	av, pr, ui := eff(c, "AV"), eff(c, "PR"), eff(c, "UI")
+// effective levels of the 15 scoring metrics, computed once per object
+type effs struct {
+	av, pr, ui, ac, at, vc, vi, va, cr, ir, ar, sc, si, sa, e int
+}
+
+func effsOf(c CVSS) effs {
+	return effs{
+		av: eff(c, "AV"), pr: eff(c, "PR"), ui: eff(c, "UI"), ac: eff(c, "AC"), at: eff(c, "AT"),
+		vc: eff(c, "VC"), vi: eff(c, "VI"), va: eff(c, "VA"), cr: eff(c, "CR"), ir: eff(c, "IR"), ar: eff(c, "AR"),
+		sc: eff(c, "SC"), si: eff(c, "SI"), sa: eff(c, "SA"), e: eff(c, "E"),
+	}
+}
+
+func (x effs) of(abv string) int {
+	switch abv {
+	case "AV":
+		return x.av
+	case "PR":
+		return x.pr
+	case "UI":
+		return x.ui
+	case "AC":
+		return x.ac
+	case "AT":
+		return x.at
+	case "VC":
+		return x.vc
+	case "VI":
+		return x.vi
+	case "VA":
+		return x.va
+	case "CR":
+		return x.cr
+	case "IR":
+		return x.ir
+	case "AR":
+		return x.ar
+	case "SC":
+		return x.sc
+	case "SI":
+		return x.si
+	case "SA":
+		return x.sa
+	}
+	return x.e
+}
+
+// refMV classifies the effective values (specification tables 24-29). In
+// every list above level 0 is the value the tables test for (N for AV/PR/UI/
+// AT, L for AC, H for the impacts and requirements, S for SI/SA, A for E).
+func refMV(x effs) (int, int, int, int, int, int) {
 	eq1 := 2
-	if av == "N" && pr == "N" && ui == "N" {
+	if x.av == 0 && x.pr == 0 && x.ui == 0 {
 		eq1 = 0
-	} else if (av == "N" || pr == "N" || ui == "N") && av != "P" {
+	} else if (x.av == 0 || x.pr == 0 || x.ui == 0) && x.av != 3 {
 		eq1 = 1
 	}
 	eq2 := 1
-	if eff(c, "AC") == "L" && eff(c, "AT") == "N" {
+	if x.ac == 0 && x.at == 0 {
 		eq2 = 0
 	}
-	vc, vi, va := eff(c, "VC"), eff(c, "VI"), eff(c, "VA")
 	eq3 := 2
-	if vc == "H" && vi == "H" {
+	if x.vc == 0 && x.vi == 0 {
 		eq3 = 0
-	} else if vc == "H" || vi == "H" || va == "H" {
+	} else if x.vc == 0 || x.vi == 0 || x.va == 0 {
 		eq3 = 1
 	}
-	sc, si, sa := eff(c, "SC"), eff(c, "SI"), eff(c, "SA")
 	eq4 := 2
-	if si == "S" || sa == "S" {
+	if x.si == 0 || x.sa == 0 {
 		eq4 = 0
-	} else if sc == "H" || si == "H" || sa == "H" {
+	} else if x.sc == 0 || x.si == 1 || x.sa == 1 {
 		eq4 = 1
 	}
-	eq5 := idx(eff(c, "E"), []string{"A", "P", "U"})
+	eq5 := x.e
 	eq6 := 1
-	if (eff(c, "CR") == "H" && vc == "H") || (eff(c, "IR") == "H" && vi == "H") || (eff(c, "AR") == "H" && va == "H") {
+	if (x.cr == 0 && x.vc == 0) || (x.ir == 0 && x.vi == 0) || (x.ar == 0 && x.va == 0) {
 		eq6 = 0
 	}
 	return eq1, eq2, eq3, eq4, eq5, eq6
@@ -147,14 +195,14 @@ func refMacroVector(c CVSS) (int, int, int, int, int, int) {
 // refDistance is the sum of the severity distances of the vector's metrics of
 // one equivalence set to the first highest-severity vector of its level that
 // is at least as severe in every one of them.
-func refDistance(c CVSS, abvs []string, maxes [][]string) int {
+func refDistance(x effs, abvs []string, maxes [][]string) int {
 	res := 0
 	found := false
 	for _, mx := range maxes {
 		sum := 0
 		ok := true
 		for i, abv := range abvs {
-			d := level(abv, eff(c, abv)) - level(abv, mx[i])
+			d := x.of(abv) - level(abv, mx[i])
 			if d < 0 {
 				ok = false
 			}
@@ -168,21 +216,18 @@ func refDistance(c CVSS, abvs []string, maxes [][]string) int {
 	return res
 }
 
-func noImpact(c CVSS) bool {
-	return eff(c, "VC") == "N" && eff(c, "VI") == "N" && eff(c, "VA") == "N" && eff(c, "SC") == "N" && eff(c, "SI") == "N" && eff(c, "SA") == "N"
-}
-
 // specKey packs what the specification's algorithm needs for the final,
 // exact computation (done by /verif/spec/cvss4_spec.py): the MacroVector, the
 // four distance sums and the no-impact flag.
 func specKey(c CVSS) int {
-	eq1, eq2, eq3, eq4, eq5, eq6 := refMacroVector(c)
-	d1 := refDistance(c, eq1Metrics, eq1Max[eq1])
-	d2 := refDistance(c, eq2Metrics, eq2Max[eq2])
-	d36 := refDistance(c, eq36Metrics, eq36Max[eq3*2+eq6])
-	d4 := refDistance(c, eq4Metrics, eq4Max[eq4])
+	x := effsOf(c)
+	eq1, eq2, eq3, eq4, eq5, eq6 := refMV(x)
+	d1 := refDistance(x, eq1Metrics, eq1Max[eq1])
+	d2 := refDistance(x, eq2Metrics, eq2Max[eq2])
+	d36 := refDistance(x, eq36Metrics, eq36Max[eq3*2+eq6])
+	d4 := refDistance(x, eq4Metrics, eq4Max[eq4])
 	ni := 0
-	if noImpact(c) {
+	if x.vc == 2 && x.vi == 2 && x.va == 2 && x.sc == 2 && x.si == 3 && x.sa == 3 {
 		ni = 1
 	}
 	k := eq1
@@ -200,13 +245,15 @@ func specKey(c CVSS) int {
 }
 
 // C04_Score: Score equals the specification's MacroVector algorithm,
-// evaluated exactly and rounded half-up, on every reachable object. Since the
-// key depends on the object only through its effective values, this also
-// shows that the score depends on nothing else (C10, v4.0 part).
+// evaluated exactly and rounded half-up, on every reachable object: the
+// driver compares the score of every solver-derived cube with the exact value
+// of /verif/spec/cvss4_spec.py for the cube's effective severity levels.
+// Since those levels are all the oracle sees, this also shows that the score
+// depends on the effective values only (C10, v4.0 part).
 func C04_Score() {
 	c := havocReachable()
-	want := verif.Table("v4_final", specKey(c))
-	verif.Assert(c.Score() == float64(want)/10, "Score equals the MacroVector algorithm of the specification")
+	x := effsOf(c)
+	verif.Oracle("v4_score", c.Score(), x.av, x.pr, x.ui, x.ac, x.at, x.vc, x.vi, x.va, x.sc, x.si, x.sa, x.cr, x.ir, x.ar, x.e)
 }
 
 func oneDecimal(s float64, lo, hi float64) bool {
